@@ -176,8 +176,23 @@ class VarSim:
                 i = st[b[1]]["i"]
                 return ("bool", i is NPOS) if nm == "valueless_by_exception" else ("idx", i)
             return None
+        if k == "ConditionalOperator":
+            c = self.val(ks[0], fr, st)
+            if c and c[0] == "bool":
+                return self.val(ks[1] if c[1] else ks[2], fr, st)
+            return None
+        if k == "BinaryOperator" and n.get("opcode") in ("&&", "||"):
+            a = self.val(ks[0], fr, st)
+            if a and a[0] == "bool" and a[1] == (n.get("opcode") == "||"):
+                return a
+            b = self.val(ks[1], fr, st)
+            if a and a[0] == "bool" and b and b[0] == "bool":
+                return b
+            return None
         if k == "BinaryOperator" and n.get("opcode") in ("==", "!=", "<", ">", "<=", ">="):
             a, b = self.val(ks[0], fr, st), self.val(ks[1], fr, st)
+            if a and b and a[0] == "bool" and b[0] == "bool" and n.get("opcode") in ("==", "!="):
+                return ("bool", (a[1] == b[1]) == (n.get("opcode") == "=="))
             if not a or not b or a[0] != "idx" or b[0] != "idx":
                 return None
             x = 10 ** 6 if a[1] is NPOS else a[1]
@@ -185,6 +200,38 @@ class VarSim:
             op = n.get("opcode")
             return ("bool", {"==": x == y, "!=": x != y, "<": x < y, ">": x > y, "<=": x <= y, ">=": x >= y}[op])
         return None
+
+    CHAIN = ("base", "destructor", "constructor", "move_constructor", "copy_constructor", "assignment", "move_assignment", "copy_assignment", "impl")
+    HANDLED = {"destroy", "generic_construct", "emplace", "construct_alt", "assign_alt", "generic_assign", "swap", "assign", "visit_alt", "visit_alt_at"}
+
+    def helper(self, nm):
+        """a further function of the variant class chain with a body (e.g. a helper extracted from swap/assign): it is inlined like the known ones"""
+        if not nm or nm in self.PURE_MEMBERS or nm in self.PURE_FREE or nm in self.HANDLED or nm.startswith("operator") or nm in self.CHAIN:
+            return None
+        for cls in self.CHAIN:
+            for f in self.P.by.get((cls, nm), []):
+                if ir.body(f) is not None:
+                    return f
+        return None
+
+    def assume(self, n, truth, fr, st):
+        """record what a condition known to be `truth` says about move_nothrow()"""
+        n = ir.strip(n)
+        k = n.get("kind")
+        ks = ir.ekids(n)
+        if k == "UnaryOperator" and n.get("opcode") == "!":
+            return self.assume(ks[0], not truth, fr, st)
+        if k == "BinaryOperator" and n.get("opcode") == "&&" and truth:
+            self.assume(ks[0], True, fr, st)
+            self.assume(ks[1], True, fr, st)
+        if k == "BinaryOperator" and n.get("opcode") == "||" and not truth:
+            self.assume(ks[0], False, fr, st)
+            self.assume(ks[1], False, fr, st)
+        if k == "CallExpr" and callee_name(n)[1] == "move_nothrow" and truth:
+            base = callee_name(n)[2]
+            b = self.val(base, fr, st) if base is not None else (("ptr", fr["this"]) if fr.get("this") else None)
+            if b and b[0] in ("obj", "ptr"):
+                fr["nothrow_from"].add(b[1])
 
     # -- primitives --------------------------------------------------------------------------------------------------------
     def prim_construct(self, st, obj, idx, node, what):
@@ -213,7 +260,9 @@ class VarSim:
         k = n.get("kind")
         if k == "CallExpr":
             kind, nm, base = callee_name(n)
-            if kind == "member" and nm in ("generic_construct", "emplace", "construct_alt", "assign_alt", "generic_assign", "assign"):
+            if kind in ("member", "free") and nm in ("generic_construct", "emplace", "construct_alt", "assign_alt", "generic_assign", "assign"):
+                return True
+            if kind in ("member", "free") and self.helper(nm) is not None:
                 return True
             if kind == "free" and nm in ("visit_alt_at", "construct_alt"):
                 return True
@@ -293,10 +342,7 @@ class VarSim:
             if kind == "cond":
                 node = step[1]
                 # X.move_nothrow() known true: moves from X cannot throw
-                if node.get("kind") == "CallExpr" and callee_name(node)[1] == "move_nothrow" and step[2]:
-                    b = self.val(callee_name(node)[2], fr, st)
-                    if b and b[0] in ("obj", "ptr"):
-                        fr["nothrow_from"].add(b[1])
+                self.assume(node, step[2], fr, st)
                 v = self.val(node, fr, st)
                 if v is not None and v[0] == "bool" and v[1] != step[2]:
                     return []
@@ -318,6 +364,15 @@ class VarSim:
                     val = self.val(init[-1], fr, st)
                     if val is not None:
                         fr["bind"][v.get("name")] = val
+                    elif ir.qtype(v).replace("const ", "").strip() == "bool":
+                        # a flag computed from something the simulation does not know (move_nothrow()): both values are followed
+                        res = []
+                        for tv in (True, False):
+                            fr2, st2 = self.cfr(fr), self.cst(st)
+                            fr2["bind"][v.get("name")] = ("bool", tv)
+                            self.assume(init[-1], tv, fr2, st2)
+                            res += self.path(fn, path, i, fr2, st2, depth)
+                        return res
                 continue
             if kind == "catch":
                 continue
@@ -404,6 +459,25 @@ class VarSim:
             return None
         kind, nm, base = callee_name(n)
         args = ks[1:]
+        if kind in ("member", "free") and nm == "generic_construct" and len(args) >= 2:
+            a0, a1 = self.val(args[0], fr, st), self.val(args[1], fr, st)
+            if not a0 or not a1:
+                raise Unknown("generic_construct with unknown operands")
+            ps = [p.get("name") for p in ir.params(self.fn_generic_construct)]
+            return self.inline(self.fn_generic_construct, {"this": None, "bind": {ps[0]: ("obj", a0[1]), ps[1]: ("obj", a1[1])}, "I": None}, fr, st, depth)
+        if kind in ("member", "free") and self.helper(nm) is not None:
+            h = self.helper(nm)
+            this = fr.get("this")
+            if kind == "member" and base is not None:
+                b = self.val(base, fr, st)
+                if not b or b[0] not in ("obj", "ptr"):
+                    raise Unknown("%s() on an unknown object" % nm)
+                this = b[1]
+            bind = {}
+            for p_, a_ in zip(ir.params(h), args):
+                v_ = self.val(a_, fr, st)
+                bind[p_.get("name")] = v_ if v_ is not None else ("opaque",)
+            return self.inline(h, {"this": this, "bind": bind, "I": fr.get("I")}, fr, st, depth)
         if kind == "member":
             b = self.val(base, fr, st) if base is not None else (("ptr", fr["this"]) if fr.get("this") else None)
             if nm in self.PURE_MEMBERS:
@@ -729,14 +803,82 @@ def rule_shape(rep, d, pats):
     base_i = [f for f in pats.by.get(("base", "index"), [])]
     if not base_v or not base_i:
         raise cj.AnalysisBroken("base::valueless_by_exception / base::index not found")
-    t = single_return(base_v[0])
-    ok = t is not None and t[0] == "bin" and t[1] == "==" and ((t[2] == ("mem", ("this",), "index_") and is_npos(t[3])) or (t[3] == ("mem", ("this",), "index_") and is_npos(t[2])))
-    (rep.holds if ok else rep.violates)(R, "base::valueless_by_exception", "index_ == index_t(-1)", where=d.where(base_v[0]), **({} if ok else {"detail": "returns `%s`" % (ir.show(t) if t else "?")}))
-    t = single_return(base_i[0])
-    ok = t is not None and t[0] == "cond" and t[1] == ("call", ("mem", ("this",), "valueless_by_exception")) and t[2] == ("ref", "variant_npos") and t[3] == ("mem", ("this",), "index_")
-    if not ok and t is not None and t[0] == "cond" and t[1] == ("un", "!", ("call", ("mem", ("this",), "valueless_by_exception"))):
-        ok = t[3] == ("ref", "variant_npos") and t[2] == ("mem", ("this",), "index_")
-    (rep.holds if ok else rep.violates)(R, "base::index", "valueless ? variant_npos : index_", where=d.where(base_i[0]), **({} if ok else {"detail": "returns `%s`" % (ir.show(t) if t else "?")}))
+    # both accessors are evaluated for the two kinds of stored index (index_t(-1) and a real one), along every path, so that any
+    # equivalent spelling is accepted and any other mapping is not
+    NPOS_T, VNPOS = "index_t(-1)", "variant_npos"
+
+    def evalx(t, idx, depth=0):
+        k = t[0]
+        if k == "cast":
+            inner = t[3]
+            while inner[0] == "cast":
+                inner = inner[3]
+            if inner == ("un", "-", ("lit", "1")):
+                return VNPOS if ("long" in str(t[2]) or "size_t" in str(t[2])) else NPOS_T
+            return evalx(t[3], idx, depth)
+        if t == ("ref", "variant_npos"):
+            return VNPOS
+        if t == ("mem", ("this",), "index_"):
+            return idx
+        if k == "lit":
+            if t[1] in ("true", "false"):
+                return t[1] == "true"
+            try:
+                return int(str(t[1]))
+            except ValueError:
+                return None
+        if k == "call" and t[1] == ("mem", ("this",), "valueless_by_exception") and len(t) == 2 and depth < 3:
+            return run_fn(base_v[0], idx, depth + 1)
+        if k == "call" and t[1] == ("mem", ("this",), "index") and len(t) == 2 and depth < 3:
+            return run_fn(base_i[0], idx, depth + 1)
+        if k == "un" and t[1] == "!":
+            v = evalx(t[2], idx, depth)
+            return (not v) if isinstance(v, bool) else None
+        if k == "cond":
+            c = evalx(t[1], idx, depth)
+            return evalx(t[2] if c else t[3], idx, depth) if isinstance(c, bool) else None
+        if k == "bin" and t[1] in ("&&", "||"):
+            x = evalx(t[2], idx, depth)
+            if not isinstance(x, bool):
+                return None
+            return x if x == (t[1] == "||") else evalx(t[3], idx, depth)
+        if k == "bin" and t[1] in ("==", "!="):
+            x, y = evalx(t[2], idx, depth), evalx(t[3], idx, depth)
+            if x is None or y is None or isinstance(x, bool) or isinstance(y, bool):
+                return None
+            return (x == y) == (t[1] == "==")
+        return None
+
+    def run_fn(fn, idx, depth=0):
+        got = set()
+        for path in flow.function_paths(fn, with_ctor_inits=False):
+            feas = True
+            for s_ in path:
+                if s_[0] == "cond":
+                    v = evalx(ir.sx(s_[1]), idx, depth)
+                    if not isinstance(v, bool):
+                        return None
+                    if v != s_[2]:
+                        feas = False
+                        break
+            if feas and path[-1][0] == "return" and ir.ekids(path[-1][1]):
+                rt = ir.sx(ir.ekids(path[-1][1])[0])
+                v = evalx(rt, idx, depth)
+                if v is None:
+                    # a ?: / && / || return is split by flow: the last atom decides a boolean result
+                    lastc = [s_ for s_ in path if s_[0] == "cond"]
+                    v = lastc[-1][2] if lastc and rt[0] == "bin" and rt[1] in ("&&", "||") else None
+                got.add(v)
+        return got.pop() if len(got) == 1 else None
+    for idx, want_v, want_i, what in ((NPOS_T, True, VNPOS, "index_ == index_t(-1)"), (2, False, 2, "index_ == 2")):
+        gv = run_fn(base_v[0], idx)
+        ok = gv is want_v
+        (rep.holds if ok else rep.violates)(R, "base::valueless_by_exception", "index_ == index_t(-1)", where=d.where(base_v[0]), scenario=what,
+                                            **({} if ok else {"detail": "yields %s when %s" % ("something not evaluable" if gv is None else gv, what)}))
+        gi = run_fn(base_i[0], idx)
+        ok = gi == want_i and not isinstance(gi, bool)
+        (rep.holds if ok else rep.violates)(R, "base::index", "valueless ? variant_npos : index_", where=d.where(base_i[0]), scenario=what,
+                                            **({} if ok else {"detail": "yields %s when %s, expected %s" % ("something not evaluable" if gi is None else gi, what, want_i)}))
     # constructors of base: valueless tag -> index_(-1); in_place_index_t<I> -> index_(I) and data_(in_place_index_t<I>{}, ...)
     for f in pats.by.get(("base", "base"), []):
         if f.get("kind") != "CXXConstructorDecl":
@@ -800,9 +942,12 @@ def rule_relop(rep, d):
         ln, rn = [p.get("name") for p in ir.params(fn)]
         paths = flow.function_paths(fn, with_ctor_inits=False)
         aliases = {}
+        linit = {}
         for n in ir.walk_expr(fn):
             if n.get("kind") == "TypeAliasDecl":
                 aliases[n.get("name")] = ir.wtype(n)
+            if n.get("kind") == "VarDecl" and ir.ekids(n) and "const" in ir.qtype(n):
+                linit[n.get("name")] = ir.sx(ir.ekids(n)[-1])
         for lv, rv, o in ((True, True, "="), (True, False, "="), (False, True, "="), (False, False, "<"), (False, False, "="), (False, False, ">")):
             scen = "lhs %s, rhs %s%s" % ("valueless" if lv else "valued", "valueless" if rv else "valued", "" if (lv or rv) else ", lhs.index() %s rhs.index()" % o)
             li = 10 ** 6 if lv else (0 if o == "<" else 1)
@@ -810,15 +955,41 @@ def rule_relop(rep, d):
             if not lv and not rv and o == "=":
                 li = ri = 1
 
+            def iv(x):
+                while x[0] == "cast":
+                    x = x[3]
+                if x[0] == "ref" and x[1] in linit:
+                    return iv(linit[x[1]])
+                if x[0] == "call" and x[1][0] == "mem" and x[1][2] == "index" and x[1][1][0] == "ref":
+                    return li if x[1][1][1] == ln else (ri if x[1][1][1] == rn else None)
+                return None
+
             def truth(t):
-                """evaluate an atom; None if unknown"""
+                """evaluate a boolean term: True / False / ("visit", term) / None if unknown"""
+                while t[0] == "cast":
+                    t = t[3]
+                if t[0] == "lit" and t[1] in ("true", "false"):
+                    return t[1] == "true"
+                if t[0] == "ref" and t[1] in linit:
+                    return truth(linit[t[1]])
                 if t[0] == "call" and t[1][0] == "mem" and t[1][2] == "valueless_by_exception" and t[1][1][0] == "ref":
-                    return lv if t[1][1][1] == ln else rv
-                if t[0] == "bin" and t[1] in ("==", "!=", "<", ">", "<=", ">="):
-                    def iv(x):
-                        if x[0] == "call" and x[1][0] == "mem" and x[1][2] == "index" and x[1][1][0] == "ref":
-                            return li if x[1][1][1] == ln else ri
+                    return lv if t[1][1][1] == ln else (rv if t[1][1][1] == rn else None)
+                if t[0] == "call" and "visit_value_at" in ir.show(t[1]):
+                    return ("visit", t)
+                if t[0] == "un" and t[1] == "!":
+                    v = truth(t[2])
+                    return (not v) if isinstance(v, bool) else None
+                if t[0] == "cond":
+                    c = truth(t[1])
+                    return truth(t[2] if c else t[3]) if isinstance(c, bool) else None
+                if t[0] == "bin" and t[1] in ("&&", "||"):
+                    a = truth(t[2])
+                    if not isinstance(a, bool):
                         return None
+                    if a == (t[1] == "||"):
+                        return a
+                    return truth(t[3])
+                if t[0] == "bin" and t[1] in ("==", "!=", "<", ">", "<=", ">="):
                     a, b = iv(t[2]), iv(t[3])
                     if a is None or b is None:
                         return None
@@ -831,13 +1002,12 @@ def rule_relop(rep, d):
                 for s in path:
                     if s[0] == "cond":
                         v = truth(ir.sx(s[1]))
-                        if v is None:
+                        if isinstance(v, tuple):
                             # the visit itself used as a condition (in the && / || form): both outcomes are the visit's
-                            t = ir.sx(s[1])
-                            if t[0] == "call" and "visit_value_at" in ir.show(t[1]):
-                                results.append(("visit", s[1]))
-                                feas = False
-                                break
+                            results.append(("visit", s[1], v[1]))
+                            feas = False
+                            break
+                        if v is None:
                             unknown = True
                             continue
                         if v != s[2]:
@@ -847,17 +1017,18 @@ def rule_relop(rep, d):
                     continue
                 end = path[-1]
                 if end[0] != "return":
-                    results.append(("?", None))
+                    results.append(("?", None, None))
                     continue
                 rt = ir.sx(ir.ekids(end[1])[0]) if ir.ekids(end[1]) else ("none",)
-                if rt[0] == "lit" and rt[1] in ("true", "false"):
-                    results.append((rt[1] == "true", end[1]))
-                elif rt[0] == "call" and "visit_value_at" in ir.show(rt[1]):
-                    results.append(("visit", ir.ekids(end[1])[0]))
+                v = truth(rt)
+                if isinstance(v, bool):
+                    results.append((v, end[1], None))
+                elif isinstance(v, tuple):
+                    results.append(("visit", ir.ekids(end[1])[0], v[1]))
                 else:
                     # && / || form folded by flow: the last evaluated atom decides
                     lastc = [s for s in path if s[0] == "cond"]
-                    results.append((lastc[-1][2] if lastc else "?", end[1]))
+                    results.append((lastc[-1][2] if lastc else "?", end[1], None))
             want = SPEC[op](lv, rv, o)
             got = {r[0] for r in results}
             if unknown or not results:
@@ -869,9 +1040,12 @@ def rule_relop(rep, d):
                 continue
             if want == "visit":
                 # the visit must be at lhs.index(), on (lhs, rhs) in that order, with the operator's own functor
-                node = [r[1] for r in results if r[0] == "visit"][0]
-                t = ir.sx(node)
-                args = t[2:]
+                node, t = [(r[1], r[2]) for r in results if r[0] == "visit"][0]
+                args = list(t[2:])
+                if args and args[0][0] == "ref" and args[0][1] in linit:
+                    args[0] = linit[args[0][1]]
+                while args and args[0][0] == "cast":
+                    args[0] = args[0][3]
                 fun = ir.show(args[1]) if len(args) > 1 else "?"
                 alias = re.sub(r"[{}()\s]", "", fun)
                 real = aliases.get(alias, alias)
@@ -904,59 +1078,109 @@ def rule_guard(rep, d, pats):
         elif t and t[0] == "call":
             ok = "holds_alternative" in ir.show(t[1]) and t[2:] == (("ref", v),)
             (rep.holds if ok else rep.violates)(R, "holds_alternative<T>", "delegates to the index form", where=d.where(f), **({} if ok else {"detail": "returns `%s`" % ir.show(t)}))
-    # generic_get: the alternative is reached only when holds_alternative<I>(v), else throw_bad_variant_access
+    # generic_get: the alternative is reached only when holds_alternative<I>(v), else throw_bad_variant_access (decided per path, so the
+    # selection may be written with either polarity, as ?: or as if/else)
+    def uncast(t):
+        while t[0] == "cast":
+            t = t[3]
+        return t
+
+    def is_holds(t, arg):
+        t = uncast(t)
+        return t[0] == "call" and "holds_alternative" in ir.show(t[1]) and tuple(uncast(x) for x in t[2:]) == (arg,)
+
     for f in ir.functions(d, "generic_get"):
         v = ir.params(f)[0].get("name")
-        conds = [n for n in ir.walk_expr(f) if n.get("kind") == "ConditionalOperator"]
-        ok, det = False, "no `holds_alternative<I>(v) ? ... : throw` selection found"
-        if len(conds) == 1:
-            c, a, b = (ir.sx(x) for x in ir.ekids(conds[0]))
-            neg = c[0] == "un" and c[1] == "!"
-            if neg:
-                c, a, b = c[2], b, a
-            c_ok = c[0] == "call" and "holds_alternative" in ir.show(c[1]) and c[2:] == (("ref", v),)
-            b_ok = any(s[0] == "call" and "throw_bad_variant_access" in ir.show(s[1]) for s in ir.subterms(b)) or any(s[0] == "throw" for s in ir.subterms(b))
-            a_ok = not any(s[0] == "call" and "throw_bad_variant_access" in ir.show(s[1]) for s in ir.subterms(a))
-            ok = c_ok and a_ok and b_ok
-            det = "condition `%s`; on failure `%s`" % (ir.show(c), ir.show(b))
-        (rep.holds if ok else rep.violates)(R, "detail::generic_get<I>", "access only under holds_alternative<I>, else bad_variant_access", where=d.where(f), **({} if ok else {"detail": det}))
+        bad, npaths = None, 0
+        for path in flow.function_paths(f, with_ctor_inits=False):
+            holds = None
+            threw = False
+            for s_ in path:
+                if s_[0] == "cond" and is_holds(ir.sx(s_[1]), ("ref", v)):
+                    holds = s_[2]
+                if s_[0] in ("ev", "throw") and s_[1] is not None and ((s_[1].get("kind") == "CallExpr" and callee_name(s_[1])[1] == "throw_bad_variant_access") or s_[1].get("kind") == "CXXThrowExpr"):
+                    threw = True
+            npaths += 1
+            if holds is None and not threw:
+                bad = "a path reaches the alternative without testing holds_alternative<I>(%s)" % v
+            elif holds is False and not threw:
+                bad = "when holds_alternative<I>(%s) is false the alternative is still reached: bad_variant_access is not raised" % v
+            elif holds is True and threw:
+                bad = "bad_variant_access is raised although the variant holds alternative I"
+        if npaths < 2 and not bad:
+            bad = "no `holds_alternative<I>(v) ? ... : throw` selection found"
+        (rep.violates if bad else rep.holds)(R, "detail::generic_get<I>", "access only under holds_alternative<I>, else bad_variant_access", where=d.where(f), **({"detail": bad} if bad else {}))
     for f in ir.functions(d, "throw_bad_variant_access"):
         thr = [n for n in ir.walk_expr(f) if n.get("kind") == "CXXThrowExpr"]
         ok = len(thr) == 1 and "bad_variant_access" in ir.qtype(ir.ekids(thr[0])[0])
         (rep.holds if ok else rep.violates)(R, "throw_bad_variant_access", "throws bad_variant_access", where=d.where(f), **({} if ok else {"detail": "does not throw bad_variant_access"}))
-    # generic_get_if
+    # generic_get_if: per path; the alternative is addressed iff the pointer is non-null and holds_alternative<I>(*v), every other path yields nullptr
     for f in ir.functions(d, "generic_get_if"):
         v = ir.params(f)[0].get("name")
-        paths = flow.function_paths(f, with_ctor_inits=False)
-        bad = None
-        n_access = 0
-        for path in paths:
-            facts = {}
-            for s in path:
-                if s[0] == "cond":
-                    facts[ir.sx(s[1])] = s[2]
+        bad, n_access, n_null = None, 0, 0
+        for path in flow.function_paths(f, with_ctor_inits=False):
+            nonnull = holds = None
+            accessed = False
+            for s_ in path:
+                if s_[0] == "cond":
+                    t = uncast(ir.sx(s_[1]))
+                    if t == ("ref", v):
+                        nonnull = s_[2]
+                    elif t[0] == "bin" and t[1] in ("!=", "==") and {uncast(t[2]), uncast(t[3])} in ({("ref", v), ("lit", "nullptr")}, {("ref", v), ("lit", "0")}):
+                        nonnull = s_[2] == (t[1] == "!=")
+                    elif is_holds(t, ("un", "*", ("ref", v))):
+                        if nonnull is not True:
+                            bad = "`*%s` is formed before %s was tested against null" % (v, v)
+                        holds = s_[2]
+                if s_[0] == "ev" and s_[1].get("kind") == "CallExpr" and callee_name(s_[1])[1] == "get_alt":
+                    accessed = True
             end = path[-1]
             if end[0] != "return":
                 continue
-            # which arm of the conditional is returned on this path is encoded by the conds; look at the get_alt use
-            rt_nodes = [x for x in ir.walk_expr(end[1]) if x.get("kind") == "CallExpr" and callee_name(x)[1] == "get_alt"]
-            nonnull = facts.get(("ref", v)) is True or facts.get(("bin", "!=", ("ref", v), ("lit", "nullptr"))) is True
-            holds = any(t[0] == "call" and "holds_alternative" in ir.show(t[1]) and val is True for t, val in facts.items())
-            took_access = nonnull and holds
-            if rt_nodes and took_access:
-                n_access += 1
-        # structural form: v && holds_alternative<I>(*v) ? addressof(get_alt<I>(*v).value) : nullptr
-        conds = [n for n in ir.walk_expr(f) if n.get("kind") == "ConditionalOperator"]
-        ok, det = False, "no guarded selection found"
-        if len(conds) == 1:
-            c, a, b = (ir.sx(x) for x in ir.ekids(conds[0]))
-            c_txt = ir.show(c)
-            c_ok = c[0] == "bin" and c[1] == "&&" and c[2] == ("ref", v) and c[3][0] == "call" and "holds_alternative" in ir.show(c[3][1]) and c[3][2:] == (("un", "*", ("ref", v)),)
-            a_ok = any(s[0] == "call" and "get_alt" in ir.show(s[1]) for s in ir.subterms(a))
-            b_ok = b == ("lit", "nullptr")
-            ok = c_ok and a_ok and b_ok
-            det = "condition `%s`, failure value `%s`" % (c_txt, ir.show(b))
-        (rep.holds if ok else rep.violates)(R, "detail::generic_get_if<I>", "non-null and holds_alternative<I> before the alternative is addressed, else nullptr", where=d.where(f), **({} if ok else {"detail": det}))
+            # the value returned on this path: follow the arms the recorded conditions select
+            def chosen(n_):
+                n_ = ir.strip(n_)
+                if n_.get("kind") == "ConditionalOperator":
+                    kk = ir.ekids(n_)
+                    c_ = truth_of(kk[0])
+                    return None if c_ is None else chosen(kk[1] if c_ else kk[2])
+                return n_
+
+            def truth_of(n_):
+                n_ = ir.strip(n_)
+                kk = ir.ekids(n_)
+                if n_.get("kind") == "UnaryOperator" and n_.get("opcode") == "!":
+                    x_ = truth_of(kk[0])
+                    return None if x_ is None else not x_
+                if n_.get("kind") == "BinaryOperator" and n_.get("opcode") in ("&&", "||"):
+                    x_ = truth_of(kk[0])
+                    if x_ is None:
+                        return None
+                    if x_ == (n_.get("opcode") == "||"):
+                        return x_
+                    return truth_of(kk[1])
+                for s2 in path:
+                    if s2[0] == "cond" and (s2[1] is n_ or ir.strip(s2[1]) is n_):
+                        return s2[2]
+                t_ = uncast(ir.sx(n_))
+                for s2 in path:
+                    if s2[0] == "cond" and uncast(ir.sx(s2[1])) == t_:
+                        return s2[2]
+                return None
+            rv = chosen(ir.ekids(end[1])[0]) if ir.ekids(end[1]) else None
+            rt = uncast(ir.sx(rv)) if rv is not None else None
+            guard = nonnull is True and holds is True
+            if accessed and not guard:
+                bad = "the alternative is addressed on a path where %s" % ("the pointer may be null" if nonnull is not True else "holds_alternative<I>(*%s) was not established" % v)
+            elif guard and not accessed:
+                bad = "a non-null pointer to a variant holding alternative I does not yield the alternative"
+            elif not guard and rt is not None and rt not in (("lit", "nullptr"), ("lit", "0")):
+                bad = "a failed test yields `%s` instead of nullptr" % ir.show(rt)[:60]
+            n_access += accessed
+            n_null += (not accessed)
+        if not bad and (n_access == 0 or n_null < 2):
+            bad = "no guarded selection found (%d accessing, %d null paths)" % (n_access, n_null)
+        (rep.violates if bad else rep.holds)(R, "detail::generic_get_if<I>", "non-null and holds_alternative<I> before the alternative is addressed, else nullptr", where=d.where(f), **({"detail": bad} if bad else {}))
     # visit: visit_value is reached only when no operand is valueless, otherwise throw_bad_variant_access() comes first
     for f in ir.functions(d, "visit"):
         if not ir.is_template_pattern(d, f) or len(ir.params(f)) < 2:
